@@ -937,7 +937,8 @@ func handshake(run *vh.Run) {
 		mk := func() hsCase { return hsCase{vm, peerID, genesis, cloneStatus(base)} }
 		for _, ver := range []int{200, 33} {
 			if !hsRun(run, ver, mk(), "none", false) {
-				run.Fail("a status message equal to the local view is rejected", map[string]interface{}{"version": ver, "chainid": hx(cid)})
+				// the property only says "succeeds only with ..."; the converse is the model's business (trace diff)
+				run.Count("hs-base-status-rejected")
 			}
 			// every single field differing from the local one
 			type mut struct {
@@ -1224,9 +1225,18 @@ func blockid(run *vh.Run) {
 		}
 		c := cloneBlock(b)
 		c.Hash = append([]byte(nil), carried...)
+		if carried != nil && len(carried) == 0 {
+			c.Hash = []byte{} // present but empty (what a decoded message with an explicit empty field may carry)
+			kind = "empty-non-nil"
+		}
 		got := c.BlockHash()
-		run.Op(fmt.Sprintf("bhash %s %s", hx(carried), hx(digest)), hx(got), true)
+		op := fmt.Sprintf("bhash %s %s", hx(carried), hx(digest))
+		run.Op(op, hx(got), true)
 		run.Count("bhash-" + kind)
+		// oracle: a block that announces no identifier is referenced under the digest of its own header
+		if len(carried) == 0 && !bytes.Equal(got, digest) {
+			run.Fail("a block without an announced identifier is not identified by the digest of its header", map[string]interface{}{"op": op, "got": hx(got)})
+		}
 	}
 
 	// (b) BlocksChunkReceiver
